@@ -45,6 +45,8 @@ def plan(tier, seed):
             n = int(rng.integers(13, 41))
         P.add("cg", n=n, cplx=bool(rng.random() < 0.5),
               bs=pick(rng, [1, 1, 1, 1e8, 1e-10]), ms=pick(rng, [1, 1, 1, 1e4, 1e-4]),
+              rhs=pick(rng, ["rand"] * 7 + ["zero", "eigvec", "x0-exact", "onehot"]),
+              prior=bool(rng.random() < 0.25),
               spec=pick(rng, ["geo", "geo", "cluster", "repeat", "identity-ish"]),
               cond=float(10 ** rng.uniform(0, 2 if big else 3)),
               x0=pick(rng, ["zero", "rand"]),
@@ -129,6 +131,31 @@ def run_cg(case):
     M = hpd(rng, n, cplx, case["spec"], case["cond"]) * ms
     b = crandn(rng, [n], dt) * bs
     x0 = np.zeros(n, dt) if case["x0"] == "zero" else crandn(rng, [n], dt) * (bs / ms)
+    # right-hand sides with structure: zero, an eigenvector of A (Krylov space of dimension
+    # one: the solution after a single update, exact zero residual afterwards), a one-hot
+    # vector, and an initial guess that already is the solution
+    rhs = case.get("rhs", "rand")
+    if rhs == "zero":
+        b = np.zeros(n, dt)
+    elif rhs == "eigvec":
+        b = np.linalg.eigh(M)[1][:, int(rng.integers(n))].astype(dt) * bs
+    elif rhs == "onehot":
+        b = np.zeros(n, dt)
+        b[int(rng.integers(n))] = bs
+    elif rhs == "x0-exact":
+        x0 = np.linalg.solve(M, b)
+    if case.get("prior"):
+        # history: a solver that breaks down (negative-definite system) is run to its stop in
+        # this process before the system under test is solved
+        try:
+            bad = sp.alg.ConjugateGradient(lambda v: -(M @ v), b.copy() + 1, np.zeros(n, dt),
+                                           max_iter=3)
+            while not bad.done():
+                bad.update()
+            sp.alg.ConjugateGradient(lambda v: M @ v, b[:-1] if n > 1 else b, np.zeros(n, dt),
+                                     max_iter=2).update()
+        except Exception:
+            pass
     if case["P"] in ("none", "identity"):
         Pm = np.eye(n, dtype=dt)
     elif case["P"] == "buffered":
@@ -180,7 +207,8 @@ def run_cg(case):
                              "k%d" % int(np.log10(case["cond"])), case["x0"], case["P"],
                              "linop" if (case["A"] == "linop" or col) and col else "func",
                              case["mi"], case["tol"], case["layout"], "n%d" % (min(n, 3) if n < 13 else 13), "scaled" if (bs != 1 or ms != 1) else "",
-                             "lay%d" % (case["rs"][-1] % 4), "decoy" if case.get("decoy") else ""]))
+                             "lay%d" % (case["rs"][-1] % 4), "decoy" if case.get("decoy") else "",
+                             case.get("rhs", "rand"), "prior" if case.get("prior") else ""]))
     wit = dict(case)
     alg = sp.alg.ConjugateGradient(Aop, bb, x, P=Pop, max_iter=mi, tol=case["tol"])
     decoy = None
@@ -261,7 +289,7 @@ def run_cg(case):
         else:
             skipped += 1
             drift_seen = max(drift_seen, rel / model)
-        if not ek <= prev * (1 + 1e-9) + 1e-13 * e0 + 1e-14 * unit:
+        if not ek <= prev * (1 + 1e-9) + 1e-13 * e0 + 1e-12 * unit:
             return violated(sig, "A-norm error increased at update %d: %.6g -> %.6g" % (
                 k, prev, ek), wit, mech="monotone")
         prev = ek
@@ -273,7 +301,9 @@ def run_cg(case):
         dstep = h["x"] - xprev
         rk = b - M @ h["x"]
         dA = anorm(M, dstep)
-        if dA > 0 and ek >= 1e-5 * e0:       # not yet converged: e_k is signal, not noise
+        # (e_k is signal, not noise: not yet converged, and the start was not already the
+        # solution up to round-off)
+        if dA > 0 and ek >= 1e-5 * e0 and e0 > 1e-9 * unit:
             ls = abs(np.vdot(dstep, rk)) / (dA * ek)        # A-cosine(step, remaining error)
             lsmax = max(lsmax, ls)
             checks += 1
@@ -294,7 +324,7 @@ def run_cg(case):
         if k < mi:
             rr = b - M @ h["x"]
             dr = nrm(h["r"] - rr)
-            if not dr <= 1e-9 * max(nrm(b), 1e-300) * max(1.0, kap ** 0.5):
+            if not dr <= 1e-9 * max(nrm(b), nrm(M @ x0), 1e-300) * max(1.0, kap ** 0.5):
                 return violated(sig, "tracked residual differs from b - A x after update %d by "
                                 "%.3g" % (k, dr), wit, mech="residual")
     obs["krylov_dist/e0"] = worst
